@@ -11,6 +11,9 @@ structure DS where
   q : List Tx := []        -- accepted / queued transactions of the open block (reversed)
   crs : AMap CRAcct := []  -- CR candidates' deposit accounts
   cq : List CRTx := []
+  vE : Nat := 100000000    -- CR VotingPeriod
+  vM : Nat := 12           -- CR MemberCount
+  lastVS : Nat := 0        -- Committee.LastVotingStartHeight
 
 def insSorted {α : Type} (x : Nat × α) : List (Nat × α) → List (Nat × α)
   | [] => [x]
@@ -30,9 +33,9 @@ def dump (d : DS) : String :=
   let a := (sortK d.s.accts).foldl (fun acc (p : Nat × Acct) =>
     acc ++ s!" {p.1}:{p.2.total}:{p.2.deposit}:{p.2.penalty}:{stCode p.2.st}:{b2n p.2.mP + 2 * b2n p.2.mA + 4 * b2n p.2.mL + 8 * b2n p.2.mC}") ""
   let t := (sortK d.s.stakes).foldl (fun acc (p : Nat × Stake) =>
-    acc ++ s!" {p.1}:{p.2.rights}:{p.2.used}") ""
+    acc ++ s!" {p.1}:{p.2.rights}:{p.2.used}:{sumV p.2.live}") ""
   let r := (sortK d.crs).foldl (fun acc (p : Nat × CRAcct) =>
-    acc ++ s!" {p.1}:{p.2.total}:{p.2.deposit}:{p.2.penalty}:{csCode p.2.st}") ""
+    acc ++ s!" {p.1}:{p.2.total}:{p.2.deposit}:{p.2.penalty}:" ++ (if p.2.gone then "-1" else toString (csCode p.2.st))) ""
   s!"h={d.h} A{a} S{t} R{r}"
 
 def ints? (s : String) : Option (List Int) :=
@@ -51,12 +54,15 @@ def parseTx : List String → Option Tx
       let b ← if bad == "n" then some none else (nat? bad).map some
       pure (.vote (← nat? k) (← nat? lock) (← ints? vs) b)
   | ["retv", k, v] => do pure (.retv (← nat? k) (← int? v))
+  | ["renew", k, _, oldLock, amount, born, newLock] => do
+      pure (.renew (← nat? k) (← nat? oldLock) (← int? amount) (← nat? newLock) (← nat? born))
   | _ => none
 
 def parseCR : List String → Option CRTx
   | ["crreg", o, amount] => do pure (.reg (← nat? o) (← int? amount))
   | ["crdep", o, v] => do pure (.dep (← nat? o) (← int? v))
   | ["crcancel", o] => do pure (.cancel (← nat? o))
+  | ["crvote", o, v] => do pure (.vote (← nat? o) (← int? v))
   | ["crret", o, inp, tinp, change, out, _] => do pure (.ret (← nat? o) (← int? inp) (← int? tinp) (← int? change) (← int? out))
   | _ => none
 
@@ -70,13 +76,19 @@ def stepC28 (d : DS) (toks : List String) : DS × String :=
     match nat? lockup, int? minDep, int? minFee, int? retvFee, nat? minLock, nat? maxLock with
     | some a, some b, some c, some e, some f, some g => ({ P := ⟨a, b, c, e, f, g⟩ }, "ok")
     | _, _, _, _, _, _ => (d, "bad-op")
+  | ["reset", lockup, minDep, minFee, retvFee, minLock, maxLock, _, vE, vM] =>
+    match nat? lockup, int? minDep, int? minFee, int? retvFee, nat? minLock, nat? maxLock, nat? vE, nat? vM with
+    | some a, some b, some c, some e, some f, some g, some x, some y => ({ P := ⟨a, b, c, e, f, g⟩, vE := x, vM := y }, "ok")
+    | _, _, _, _, _, _, _, _ => (d, "bad-op")
   | ["reset"] => ({}, "ok")
   | ["begin", h] => match nat? h with
     | some h => ({ d with h := h, q := [], cq := [] }, "ok")
     | none => (d, "bad-op")
   | ["end"] =>
     let s' := applyTxs d.P d.h d.s d.q.reverse
-    let d' := { d with s := s', q := [], crs := ElaVerif.CRDeposit.applyTxs d.P d.h d.crs d.cq.reverse, cq := [] }
+    let crs1 := ElaVerif.CRDeposit.applyTxs d.P d.h d.crs d.cq.reverse
+    let (crs2, vs) := ElaVerif.CRDeposit.election d.P d.vE d.vM d.h d.lastVS crs1
+    let d' := { d with s := s', q := [], crs := crs2, lastVS := vs, cq := [] }
     (d', dump d')
   | _ =>
     match parseCR toks with
@@ -84,7 +96,7 @@ def stepC28 (d : DS) (toks : List String) : DS × String :=
       (match ElaVerif.CRDeposit.check d.crs ctx with
        | some e => (d, "reject " ++ e)
        | none => ({ d with cq := ctx :: d.cq },
-           match ctx with | .reg .. | .dep .. => "queued" | _ => "accept"))
+           match ctx with | .reg .. | .dep .. | .vote .. => "queued" | _ => "accept"))
     | none =>
     match parseTx toks with
     | none => (d, "bad-op")
